@@ -284,3 +284,17 @@ Proof.
   - assert (T0 : (e_type l =? 0) = false) by lia. rewrite Et, El, T0, L. cbn [Z.eqb negb orb fst].
     intros X; inversion X; subst. rewrite eth_padding_idem, app_nil_r. reflexivity.
 Qed.
+
+Lemma eth_decoded_wf old data l tr : bytes_ok data -> eth_decode_into old data = (l, Ok tt, tr) -> eth_wf l.
+Proof.
+  intros Hb. unfold eth_decode_into. cbv zeta.
+  destruct (zlen data <? 14) eqn:Hn; [discriminate|].
+  rewrite (cd_slc_ok data 0 6), (cd_slc_ok data 6 12), (cd_slc_ok data 0 14), (cd_slc_ok data 14 (zlen data)) by lia.
+  rewrite cd_rd16_ok by lia. cbn [ebind].
+  set (ty := nth (Z.to_nat 12) data 0 * 256 + nth (Z.to_nat (12 + 1)) data 0).
+  assert (Hty : 0 <= ty < 65536) by (unfold ty; pose proof (bytes_nth data (Z.to_nat 12) Hb); pose proof (bytes_nth data (Z.to_nat (12+1)) Hb); lia).
+  destruct (ty <? 1536) eqn:T.
+  - repeat match goal with |- context [if ?c then _ else _] => destruct c end;
+      try (destruct (cd_slc _ _ _); cbn [ebind]); intros X; inversion X; left; reflexivity.
+  - intros X; inversion X. right. cbn. lia.
+Qed.
